@@ -61,6 +61,37 @@ Fixpoint none_loss (f : fill) (t : cty) (w : val) {struct t} : bool :=
   | _ => false
   end.
 
+Definition spec_init_args (v : val) : list (val * val) :=
+  match v with
+  | VDict d => match dict_get (VStr k_init_args) d with Some (VDict a) => a | _ => [] end
+  | _ => []
+  end.
+
+(* a subclass spec is completed, on the way back, from the init_args of the value the key held before (the declared
+   default spec: parameters shared by the classes are carried over), and only then from the class's own defaults:
+   an explicit None that the dump drops comes back as the default spec's value *)
+Definition sub_none_loss (dflt w : val) : bool :=
+  existsb (fun kv => is_vnone (snd kv)
+                     && match dict_get (fst kv) (spec_init_args dflt) with Some z => negb (is_vnone z) | None => false end)
+          (spec_init_args w).
+
+(* skip_default prunes the init_args of a spec of ANOTHER class than the default's against that class's own defaults
+   (cdef), yet the re-parse completes them from the default spec first: a parameter that equals the class default but not
+   the default spec's value is lost *)
+Definition carry_conflict (cdef : list (val * val)) (j dj : val) : bool :=
+  existsb (fun kv => match dict_get (fst kv) cdef with Some y => py_eq (snd kv) y | None => false end
+                     && match dict_get (fst kv) (spec_init_args dj) with Some z => negb (py_eq (snd kv) z) | None => false end)
+          (spec_init_args j).
+
+Definition class_default_args (t : cty) (j : val) : list (val * val) :=
+  match spec_class j with
+  | Some cp => match class_fields (sub_classes t) cp with
+               | Some fs => map (fun f => (VStr (fst (fst f)), snd f)) fs
+               | None => []
+               end
+  | None => []
+  end.
+
 Definition top_fill (t : cty) : fill := if is_dc_direct t then FAll else FNo.
 
 Section Guard.
@@ -82,6 +113,8 @@ Variable yl : str -> option val.
        `default.get("class_path")` raises AttributeError
    10 = skip-default-drops-dict-kwargs  : skip_default deletes a subclass spec whose class and init_args are the default's
        although its dict_kwargs differ
+   12 = skip-default-prune-vs-carry-over : skip_default prunes the init_args of a spec of another class than the default's
+       against that class's own defaults, but the re-parse carries the default spec's init_args over first
    11 = (no finding) skip_default pruned the init_args of a subclass spec: lossless by design (the parser restores them
        from the default / the class), but outside the statement proved — a failure here is reported as a violation *)
 Definition skipdef_class (vr : variant) (lf : leaf) (w : val) : N :=
@@ -92,7 +125,10 @@ Definition skipdef_class (vr : variant) (lf : leaf) (w : val) : N :=
         match trim (lf_ty lf) j dj with
         | TErr => 9%N
         | TDel => if veq (lf_def lf) w then 0%N else match spec_class j with Some _ => 10%N | None => 3%N end
-        | TKeep j' => if val_eqb j' j then 0%N else 11%N
+        | TKeep j' => if val_eqb j' j then 0%N
+                      else if negb (opt_py_eq (option_map VStr (spec_class j)) (option_map VStr (spec_class dj)))
+                              && carry_conflict (class_default_args (lf_ty lf) j) j dj then 12%N
+                      else 11%N
         end
     | _, _ => 0%N
     end
@@ -126,7 +162,8 @@ Definition leaf_class (vr : variant) (lw : leaf * val) : N :=
   let '(lf, w) := lw in
   if vr_comments vr then 6%N
   else if has_null_enum w then 7%N
-  else if vr_skip_none vr && ((is_vnone w && negb (is_vnone (lf_def lf))) || none_loss (top_fill (lf_ty lf)) (lf_ty lf) w) then 1%N
+  else if vr_skip_none vr && ((is_vnone w && negb (is_vnone (lf_def lf))) || none_loss (top_fill (lf_ty lf)) (lf_ty lf) w
+                           || sub_none_loss (lf_def lf) w) then 1%N
   else if veq w (lf_def lf) && negb (leaf_stable_b (vr_skip_none vr) lf w) then 8%N
   else if negb (N.eqb (skipdef_class vr lf w) 0) then skipdef_class vr lf w
   else text_class vr lf w.
